@@ -9,7 +9,7 @@ VARIABLES c, phase
 vars == <<c, phase>>
 
 J(x) == IF IsNaN(x) THEN "nan" ELSE IF IsInf(x) THEN (IF x[1] > 0 THEN "inf" ELSE "-inf") ELSE IF x[2] = 1 THEN x[1] ELSE x
-QL == <<Zero, Frac(1, 4), Frac(1, 2), Frac(9, 10), One>>
+QL == <<Zero, Frac(1, 4), Frac(1, 2), Frac(9, 10), One, Frac(39, 40), Frac(1, 8)>>       \* also levels that are not whole percents (0.975, 0.125)
 VV == {R(-2), R(0), R(1), R(3), NaN}
 Vecs(u) == {<<a>> : a \in VV} \cup {<<a, b>> : a \in VV, b \in VV} \cup {<<a, b, d>> : a \in VV, b \in VV, d \in VV}
            \cup {<<a, b, d, e>> : a \in VV \ {NaN}, b \in VV \ {NaN}, d \in VV \ {NaN}, e \in VV \ {NaN}}
